@@ -492,6 +492,9 @@ func (gen *Generator) GenerateLet(name string, args []Sexp) error {
 	gen.AddInstruction(AddScopeInstr{Name: "runtime " + name})
 	gen.scopes++
 
+	// the right-hand sides of the bindings are not in tail position
+	oldtail := gen.Tail
+	gen.Tail = false
 	if name == "letseq" {
 		for i, rs := range rstatements {
 			err := gen.Generate(rs)
@@ -511,6 +514,7 @@ func (gen *Generator) GenerateLet(name string, args []Sexp) error {
 			gen.AddInstruction(PopStackPutEnvInstr{lstatements[i]})
 		}
 	}
+	gen.Tail = oldtail
 	err := gen.GenerateBegin(args[1:])
 	if err != nil {
 		return err
@@ -525,7 +529,11 @@ func (gen *Generator) GenerateAssert(args []Sexp) error {
 	if len(args) != 1 {
 		return WrongNargs
 	}
+	// the asserted expression is not in tail position
+	oldtail := gen.Tail
+	gen.Tail = false
 	err := gen.Generate(args[0])
+	gen.Tail = oldtail
 	if err != nil {
 		return err
 	}
@@ -810,7 +818,11 @@ func (gen *Generator) GenerateCall(expr *SexpPair) error {
 }
 
 func (gen *Generator) GenerateArray(arr *SexpArray) error {
+	// the elements of an array literal are not in tail position
+	oldtail := gen.Tail
+	gen.Tail = false
 	err := gen.GenerateAll(arr.Val)
+	gen.Tail = oldtail
 	if err != nil {
 		return err
 	}
@@ -1179,6 +1191,11 @@ func (gen *Generator) GenerateSyntaxQuote(args []Sexp) error {
 		return fmt.Errorf("syntaxQuote takes exactly one argument")
 	}
 	arg := args[0]
+
+	// unquoted expressions inside a template are not in tail position
+	oldtail := gen.Tail
+	gen.Tail = false
+	defer func() { gen.Tail = oldtail }()
 
 	// need to handle arrays, since they can have unquotes
 	// in them too.
